@@ -100,5 +100,32 @@ fn xrevrange_bounds(parts: &[RespFrame], out: &mut (StreamId, StreamId)) -> (r: 
             && Some(final(out).0.packed) == bound_arg(parts@, 3, "-"@, 0) && Some(final(out).1.packed) == bound_arg(parts@, 2, "+"@, u128::MAX),
 //@@ body
 //@@ end
+// ======================= XADD: the entry's field-value pairs (C15 "entries keep their field-value pairs") =========================
+/// the map XADD builds from arguments 3,4 / 5,6 / ...: the first n pairs, a later pair for the same field replacing the earlier one
+pub open spec fn fields_upto(parts: Seq<RespFrame>, n: int) -> Map<Vec<u8>, Vec<u8>>
+    decreases n
+{ if n <= 0 { Map::empty() } else { fields_upto(parts, n - 1).insert(arg_vec(parts, 2 * n + 1)->Some_0, arg_vec(parts, 2 * n + 2)->Some_0) } }
+/// `bytes.as_ref().clone()` on an Arc<Vec<u8>> (RT site): a copy of the argument
+#[verifier::external_body]
+pub fn verif_clone_arc_bytes(b: &Arc<Vec<u8>>) -> (r: Vec<u8>) ensures r == **b, { unimplemented!() }
+//@@ unit xadd_fields stmts src/storage/commands/streams.rs handle_xadd "let num_fields" upto "let result_id"
+//@@   opt same-return-type
+//@@   rewrite RT "bytes.as_ref().clone()" "verif_clone_arc_bytes(bytes)"
+//@@   rewrite RT "let mut fields = HashMap::with_capacity(num_fields);" "let mut fields: HashMap<Vec<u8>, Vec<u8>> = HashMap::with_capacity(num_fields);"
+//@@   rewrite RFORK 0
+//@@   loop 0
+//@@|     invariant
+//@@|         parts@.len() >= 4, parts@.len() % 2 == 1, i__end == parts@.len(), i__k == 2, 3 <= i__n <= i__end, i__n % 2 == 1,
+//@@|         forall|j: int| 3 <= j < i__n ==> (#[trigger] parts@[j] matches RespFrame::BulkString(Some(_))),
+//@@|         fields@ == fields_upto(parts@, (i__n - 3) / 2),
+//@@|     decreases i__end - i__n,
+//@@   tail *out = fields; Ok(RespFrame::ok())
+fn xadd_fields(parts: &[RespFrame], out: &mut HashMap<Vec<u8>, Vec<u8>>) -> (r: Result<RespFrame>)
+    requires parts@.len() >= 4, parts@.len() % 2 == 1,
+    ensures
+        !all_bulk(parts@, 3) ==> (r matches Ok(f) && f is Error) && final(out)@ == old(out)@,
+        all_bulk(parts@, 3) ==> (r matches Ok(f) && !(f is Error)) && final(out)@ == fields_upto(parts@, (parts@.len() - 3) / 2),
+//@@ body
+//@@ end
 } // verus!
 fn main() {}
